@@ -183,12 +183,16 @@ def make_world(g, tag):
             fam = 'yaml' if kind == 'yaml' else 'json'
             pool = pool_yaml(g) if kind == 'yaml' else pool_json(g)
             invalid = r.random() < (0.4 if all_fail else 0.06)
+            # a YAML document without content ("" or a lone `---`) is valid: every path is missing in it, so every
+            # matcher that insists on its path fails and is named
+            empty_yaml = kind == 'yaml' and r.random() < 0.12
+            base_doc = {} if empty_yaml else (YD if kind == 'yaml' else DOC)
             for _try in range(50):
                 ms = group(r, [r.choice(pool) for _ in range(r.randint(1, 4))])
-                failing, final = simulate(YD if kind == 'yaml' else DOC, ms)
+                failing, final = simulate(base_doc, ms)
                 if invalid or not all_fail or failing:
                     break
-            doc = YDOC if kind == 'yaml' else g.json_text(DOC)
+            doc = (r.choice(['', '---\n']) if empty_yaml else YDOC) if kind == 'yaml' else g.json_text(DOC)
             form = r.choice(['s', 's', 'b', 'b', 'v']) if fam == 'json' else r.choice(['s', 'b'])
             fire = r.random() < 0.15
             if fire:
@@ -200,7 +204,7 @@ def make_world(g, tag):
                     pth = '$.a' if kind == 'yaml' else 'a'
                     m = M('C', [pth], 'Custom', docs.custom_matcher(pth, True, '"c"', True, None, True), newv='c')
                 ms.insert(r.randint(0, len(ms)), m)
-                failing, final = simulate(YD if kind == 'yaml' else DOC, ms)
+                failing, final = simulate(base_doc, ms)
             if invalid:
                 doc, form = r.choice(INVALID[fam]), r.choice(['s', 'b'])
             before = w.add('fsdump')
